@@ -87,6 +87,19 @@ def gen_case(rng: random.Random):
                                      "label": labels[li]})
                         li += 1
                         break
+    if kind == "seg" and dtype in ("uint8", "uint16") and nd == 2 and rng.random() < 0.3 \
+            and len(dets) >= 1 and not dense:
+        # one big cell (more pixels than the dtype can count) overlapping its neighbours in time
+        case["shape"] = shape = (20, 20)
+        t_big = dets[0]["t"]
+        dets = [d for d in dets if d["t"] != t_big][:6]
+        for d in dets:
+            d["sl"] = [[min(a, 19), min(max(b, a + 1), 20)] for a, b in d["sl"]]
+        dets.append({"t": t_big, "sl": [[1, 18], [1, 18]], "label": labels[0] if labels else 1})
+        seen_l = set()
+        dets = [d for d in dets if not (d["label"] in seen_l or seen_l.add(d["label"]))]
+        case["iou"] = True
+        case["exact"] = False
     case["dets"] = dets
     case["int_points"] = kind == "points" and exact and rng.random() < 0.5
     case["iou"] = kind == "seg" and rng.random() < 0.5
@@ -279,8 +292,19 @@ def judge_multihyp(rng, acc):
                 G = nx.compose(G, g_h)
                 for t, ns in d_h.items():
                     nfd.setdefault(t, []).extend(ns)
-            add_cand_edges(G, r, nfd)
-            add_iou(G, seg, nfd, multiseg=True)
+            if rng.random() < 0.5:
+                # the frame dictionary is optional; and the composed graph's nodes need not
+                # be stored in time order
+                G2 = nx.DiGraph()
+                order_ = list(G.nodes(data=True))
+                rng.shuffle(order_)
+                G2.add_nodes_from(order_)
+                G = G2
+                add_cand_edges(G, r)
+                add_iou(G, seg, multiseg=True)
+            else:
+                add_cand_edges(G, r, nfd)
+                add_iou(G, seg, nfd, multiseg=True)
         except Exception as e:
             return [("raised", f"multi-hypothesis workflow: {type(e).__name__}: {e}",
                      f"C18/multihyp/raised/{type(e).__name__}")], 0
